@@ -43,6 +43,7 @@ impl Handler for NoConsoleHandler {
     if_chain! {
       if let Expr::Ident(ident) = &expr.obj;
       if ident.sym() == "console";
+      if ident.ctxt() == ctx.unresolved_ctxt();
       if ctx.scope().is_global(&ident.inner.to_id());
       then {
         ctx.add_diagnostic(
@@ -59,6 +60,7 @@ impl Handler for NoConsoleHandler {
     if_chain! {
       if let Expr::Ident(ident) = &expr.expr;
       if ident.sym() == "console";
+      if ident.ctxt() == ctx.unresolved_ctxt();
       if ctx.scope().is_global(&ident.inner.to_id());
       then {
         ctx.add_diagnostic(
